@@ -122,6 +122,23 @@ CHECKS = {
               "to_partial/from_partial round trip are checked on real objects."),
         technique="TLA+ merge algebra checked exhaustively by TLC + exported expected outcomes replayed on real partial models",
         design="4/C14"),
+    "C18": dict(
+        text=("DirDiff.tla defines Reported(a,b) declaratively, the documented listing order and an applier machine whose steps are "
+              "enabled only if removals find an emptied node and additions find their parent; TLC checks for every pair of 81 "
+              "snapshots (files, symlinks, empty and nested directories, file<->directory replacements) that the documented order is "
+              "complete and safe and exports the pairs; every pair plus seeded random larger pairs is compared with the real DirDiff "
+              "and TLC judges the recorded node list (exact set with status and entries, empty iff equal, the real order drives the "
+              "applier to the new tree, get() agrees)."),
+        technique="TLA+ diff/applier specification checked by TLC + trace validation of real DirDiff results (all small pairs, random larger pairs)",
+        design="4/C18"),
+    "C19": dict(
+        text=("DirHash.tla defines what a directory is for hashing (names, contents, resolved in-directory symlink targets, "
+              "subdirectories) and the expected hash tree or rejection; TLC checks injectivity for all 130k pairs of the tree "
+              "universe and exports the expectation per tree; every tree is materialised on disk in random creation order with "
+              "random timestamps and file sizes around hash block boundaries, dir_hashsums is compared with the expectation "
+              "(digests recomputed with hashlib) and real results are cross-checked pairwise; chunk-independent hashing is probed."),
+        technique="TLA+ hash-tree specification checked by TLC over all pairs + enumerated trees materialised on disk and compared",
+        design="4/C19"),
 }
 
 NOT_YET = "check not built yet (work in progress)"
